@@ -126,10 +126,10 @@ func (e *TarEntry) SHA256() string {
 
 // TarShape describes the raw block structure of a tar stream.
 type TarShape struct {
-	Headers        int  // header blocks walked (incl. extension headers)
-	TrailingZero   int  // zero blocks at the end
-	EndMarker      bool // >= 2 zero blocks terminate the stream
-	Leftover       int  // bytes after the last full block
+	Headers         int  // header blocks walked (incl. extension headers)
+	TrailingZero    int  // zero blocks at the end
+	EndMarker       bool // >= 2 zero blocks terminate the stream
+	Leftover        int  // bytes after the last full block
 	NonZeroAfterEOA bool
 }
 
